@@ -35,7 +35,7 @@ REQUIRED_BUCKETS = ['op:Plane()', 'op:Pupil(mask3d)', 'op:multiply', 'op:propaga
                     'op:rescale', 'op:adc', 'op:collect_charge', 'op:collect_charge_bayer', 'op:tilt-multiply', 'op:Field(ndarray offset)', 'op:Plane.properties', 'op:pixel', 'op:jitter', 'op:smear',
                     'op:dft2', 'op:idft2', 'op:zernike_fit', 'op:pad', 'op:rebin', 'op:power_spectrum', 'op:Spectrum.multiply',
                     'op:Spectrum.sample', 'op:Spectrum.bin', 'op:Spectrum.to', 'op:refusals', 'op:fit_tilt:nothing-to-fit', 'op:fit_tilt:inplace', 'op:shot_noise', 'op:read_noise', 'program', 'dft-keys>32',
-                    'replayed']
+                    'replayed', 'op:dft2:nearby-shifts', 'op:zernike:supplied-coordinates']
 REQUIRED_ANCHORS = ['anchor:_dft2_coords', 'anchor:Plane.__init__', 'anchor:adc', 'anchor:Plane.fit_tilt', 'anchor:Field.__mul__']
 REQUIRED_ORACLES = ['frozen-inputs', 'inputs-unchanged', 'history-deterministic', 'global-rng-untouched', 'global-state-untouched', 'dft-cache-intact',
                     'path-independent']
@@ -395,6 +395,42 @@ def catalogue(lentil, rng):
             return r, [('dft-cache', 'ok', 'ok' if ok else 'poisoned')], ('dftkey', (m, n, M, N))
         return a, call
 
+    @op('dft2:nearby-shifts')
+    def _():
+        # two transforms that agree in everything but a shift that differs by less than a millionth of a sample (two points of a
+        # finite-difference sensitivity): the second is its own defining sum, whatever was evaluated just before it
+        m, n, M, N = (int(x) for x in rng.integers(2, 12, 4))
+        a = {'f': rng.normal(size=(m, n)) + 1j * rng.normal(size=(m, n))}
+        al = (float(rng.uniform(0.05, 0.3)), float(rng.uniform(0.05, 0.3)))
+        s1 = (float(rng.uniform(-3, 3)), float(rng.uniform(-3, 3)))
+        d = float(rng.choice([-1, 1])) * float(10 ** rng.uniform(-9, -6.4))
+        s2 = (s1[0] + d, s1[1] - d)
+        off = (int(rng.integers(-3, 4)), int(rng.integers(-3, 4)))
+        def call(a):
+            r1 = lentil.fourier.dft2(a['f'], al, shape=(M, N), shift=s1, offset=off)
+            r2 = lentil.fourier.dft2(a['f'], al, shape=(M, N), shift=s2, offset=off)
+            ref, maxphase = rm.dft_sum(a['f'], al[0], al[1], (M, N), s2, off, True)
+            ok = bool(np.max(np.abs(r2 - ref)) <= rm.dft_tol(a['f'], al[0], al[1], maxphase, True))
+            return (r1, r2), [('exact-after-neighbour', 'ok', 'ok' if ok else 'off')]
+        return a, call
+
+    @op('zernike:supplied-coordinates')
+    def _():
+        # one caller-owned coordinate grid (float64 arrays of the mask's shape) used for a sub-aperture and then for the full aperture
+        shape = gen.rshape(rng, 8, 20)
+        ii, jj = np.indices(shape)
+        rad = np.hypot(ii - shape[0] / 2, jj - shape[1] / 2)
+        rho, theta = rad / rad.max(), np.arctan2(ii - shape[0] / 2, jj - shape[1] / 2)
+        sub = (np.hypot(ii - shape[0] * 0.4, jj - shape[1] * 0.6) <= 0.2 * min(shape)).astype(float)
+        full = (rad <= 0.45 * min(shape)).astype(float)
+        a = {'rho': rho, 'theta': theta, 'sub': sub, 'full': full, 'opd': rng.normal(size=shape), 'coeffs': rng.normal(size=5)}
+        def call(a):
+            kw = dict(rho=a['rho'], theta=a['theta'])
+            return (lentil.zernike(a['sub'], 4, **kw), lentil.zernike(a['full'], 7, **kw), lentil.zernike_basis(a['sub'], [2, 3, 6], **kw),
+                    lentil.zernike_compose(a['full'], a['coeffs'], **kw), lentil.zernike_fit(a['opd'] * a['sub'], a['sub'], [1, 2, 3], **kw),
+                    lentil.zernike_remove(a['opd'] * a['full'], a['full'], [2, 3], **kw))
+        return a, call
+
     @op('idft2')
     def _():
         m, n = (int(x) for x in rng.integers(1, 14, 2))
@@ -592,6 +628,10 @@ def run_op(ctx, name, args, call, phase):
         if label == 'dft-cache':
             ctx.check(after == 'ok', 'dft-cache-intact', 'dft-cache|poisoned',
                       'cached DFT coordinate vectors no longer equal arange(n) - floor(n/2)', {'op': name})
+        elif label == 'exact-after-neighbour':
+            ctx.check(after == 'ok', 'history-deterministic', f'nondeterministic|{name}|defining-sum',
+                      f'{name}: a transform evaluated right after one with an almost equal shift is not its own defining sum '
+                      '(the result depends on what was evaluated before it)', {'op': name, 'phase': phase})
         elif label == 'repeat':
             ctx.check(after == 'same', 'history-deterministic', f'nondeterministic|{name}|repeat',
                       f'{name}: repeating the call on the same operands gave a different result (or changed an earlier result)',
